@@ -7,6 +7,7 @@ import QecVerif.Model.DriverC09
 import QecVerif.Model.DriverApp
 import QecVerif.Model.DriverC19
 import QecVerif.Model.DriverSmwpm
+import QecVerif.Model.DriverStepGrid
 import QecVerif.Model.DriverC10RotatedPlanarRmps
 import QecVerif.Model.DriverC10Color666
 import QecVerif.Model.DriverC10PlanarRmps
@@ -44,6 +45,7 @@ def dispatch (line : String) : String :=
   | "c18" :: rest => (c18 rest).getD "bad-op"
   | "c19" :: rest => (c19 rest).getD "bad-op"
   | "smwpm" :: rest => (smwpm rest).getD "bad-op"
+  | "stepgrid" :: rest => (stepgrid rest).getD "bad-op"
   | "c10rprmps" :: rest => (c10rprmps rest).getD "bad-op"
   | "c10color" :: rest => (c10color rest).getD "bad-op"
   | "c10rmps" :: rest => (c10rmps rest).getD "bad-op"
